@@ -531,7 +531,7 @@ TEQ = z3.Function("teq", TUP, TUP, z3.BoolSort())
 def teq_axioms():
     a, b = z3.Const("teq_a", TUP), z3.Const("teq_b", TUP)
     j = z3.Int("teq_j")
-    same = z3.ForAll([j], z3.Implies(z3.And(j >= 0, j < TLEN(a)), TEL(a, j) == TEL(b, j)), patterns=[TEL(a, j), TEL(b, j)], qid="teq-pointwise")
+    same = z3.ForAll([j], z3.Implies(z3.And(j >= 0, j < TLEN(a)), TEL(a, j) == TEL(b, j)), patterns=[z3.MultiPattern(TEL(a, j), TEL(b, j))], qid="teq-pointwise")
     return [
         z3.ForAll([a, b], TEQ(a, b) == (a == b), patterns=[TEQ(a, b)], qid="teq-def"),
         z3.ForAll([a, b], z3.Implies(z3.And(TLEN(a) == TLEN(b), same), a == b), patterns=[TEQ(a, b)], qid="teq-ext"),
